@@ -1,6 +1,7 @@
 """Implementation drivers for C19 (MetricFFParser, ENHSPParser)."""
 import os
 import re
+import shutil
 import tempfile
 from pathlib import Path
 
@@ -133,8 +134,5 @@ def sequence(job):
             except Exception as e:  # noqa
                 res.append({"raised": type(e).__name__, "msg": str(e)[:200]})
     finally:
-        for p in (src, out, base / "planner.new"):
-            if p.exists():
-                p.unlink()
-        base.rmdir()
+        shutil.rmtree(base, ignore_errors=True)
     return {"steps": res}
